@@ -3,6 +3,7 @@ import Gallia.Proofs.Lemmas.PenlogWriter
 import Gallia.Proofs.Lemmas.PenlogArgs
 import Gallia.Gen.C17Levels
 import Gallia.Gen.C17Hr
+import Gallia.Model.PenlogGate
 /-
   C17 — Log records written by a run are read back exactly, in any navigation mode.
   Property theorems only; helper lemmas are in `Proofs/Lemmas/Penlog{Str,Line,Nav}.lean`.
@@ -564,5 +565,60 @@ example : hrRun envSample fsSample (fileOf false [recSample2, recSample]) argvSa
   have e1 : recSample.prio = 8 := rfl
   have e2 : recSample2.prio = 2 := rfl
   simp [slice, e1, e2]
+
+/-! ### writer: the level gates between a logging call and the file (`Model/PenlogGate.lean`) -/
+
+/-- below any number of NOTSET loggers the effective level is the one `setup_logging` set: the catch-all 1 -/
+theorem effectiveLevel_chainOf (console depth : Nat) : effectiveLevel (chainOf console depth) = 1 := by
+  induction depth with
+  | zero => simp [chainOf, effectiveLevel, setupLoggerLevel]
+  | succ d ih =>
+    simp only [chainOf, List.replicate_succ, List.cons_append, effectiveLevel] at ih ⊢
+    simpa using ih
+
+/-- whatever the console level of `setup_logging`, whatever the file level (>= 1: every `Loglevel` is), on whatever
+    descendant of the configured logger a record is logged: a record reaches the file iff its level is at or above
+    the file level -/
+theorem reachesFile_iff (console fileLv depth lv : Nat) (hf : 1 ≤ fileLv) :
+    reachesFile console fileLv depth lv = decide (fileLv ≤ lv) := by
+  simp only [reachesFile, effectiveLevel_chainOf]
+  by_cases h : fileLv ≤ lv
+  · have h1 : 0 < lv := by omega
+    have h2 : 1 ≤ lv := by omega
+    simp [h, h1, h2]
+  · simp [h]
+
+/-- the file gets exactly the logged records at or above the FILE level, in order, each once - for every console
+    level (verbosity), every file level, every sequence of records on any loggers below the configured one -/
+theorem file_gets_every_record_at_or_above_file_level (console fileLv : Nat) (hf : 1 ≤ fileLv) (logged : List (Nat × Nat)) :
+    fileRecords console fileLv logged = logged.filter (fun r => decide (fileLv ≤ r.2)) := by
+  unfold fileRecords
+  congr 1
+  funext r
+  exact reachesFile_iff console fileLv r.1 r.2 hf
+
+/-- the file levels a run can have (`get_file_log_level`) and the console levels (`get_log_level`) are real levels -/
+theorem fileLevelOf_pos (t : Option Bool) (v : Option Nat) : 1 ≤ fileLevelOf t v := by
+  unfold fileLevelOf
+  split <;> (try split) <;> omega
+
+/-- with `--trace-log` every record of the seven levels is in the file, whatever the verbosity of the console -/
+theorem trace_log_file_gets_all (verbose : Nat) (v : Option Nat) (logged : List (Nat × Nat)) (h : ∀ r ∈ logged, r.2 ∈ levels) :
+    fileRecords (consoleLevelOf verbose) (fileLevelOf (some true) v) logged = logged := by
+  rw [file_gets_every_record_at_or_above_file_level _ _ (fileLevelOf_pos _ _)]
+  apply List.filter_eq_self.mpr
+  intro r hr
+  have := h r hr
+  simp only [levels, List.mem_cons, List.not_mem_nil, or_false] at this
+  simp only [fileLevelOf, if_true, decide_eq_true_eq]
+  omega
+
+/-- non-vacuity: console INFO (verbose 0), `--trace-log`: the TRACE and DEBUG records logged on child loggers are in
+    the file; without `--trace-log` the TRACE record is not, the others are -/
+example : fileRecords (consoleLevelOf 0) (fileLevelOf (some true) (some 0)) [(1, 5), (0, 20), (2, 10), (1, 50)]
+      = [(1, 5), (0, 20), (2, 10), (1, 50)] ∧
+    fileRecords (consoleLevelOf 0) (fileLevelOf (some false) (some 0)) [(1, 5), (0, 20), (2, 10), (1, 50)]
+      = [(0, 20), (2, 10), (1, 50)] ∧
+    fileFlags (consoleLevelOf 1) (fileLevelOf none (some 1)) [(1, 5), (0, 20), (2, 10), (1, 50)] = [false, true, true, true] := by decide
 
 end Gallia.C17
